@@ -81,6 +81,7 @@ class _ManifoldDynamicsService(_DynamicsServiceBase):
         self._direction = 1 if self.domain_obj._direction == "positive" else -1
         self._forward = - self._stable
         self._manifold_result = None
+        self._manifold_result_for = None
 
         self._generator = None
         self._eigendecomposition_config = None
@@ -198,18 +199,25 @@ class _ManifoldDynamicsService(_DynamicsServiceBase):
         """The stability of the manifold."""
         return self.compute_stability()
 
+    def _orbit_key(self) -> tuple:
+        """State and period of the generating orbit: every cached quantity depends on them."""
+        return (tuple(np.asarray(self.orbit.initial_state, dtype=float).tolist()), self.orbit.period)
+
     @property
     def manifold_result(self) -> Tuple[float, float, List[np.ndarray], List[np.ndarray], int, int]:
         """The manifold result."""
+        if self._manifold_result is not None and self._manifold_result_for != self._orbit_key():
+            return None  # computed for an earlier state / period of the generating orbit
         return self._manifold_result
 
     @property
     def trajectories(self) -> List[Trajectory]:
         """The trajectories of the manifold."""
-        if self._manifold_result is None:
+        result = self.manifold_result
+        if result is None:
             return None
-        states_list = self._manifold_result[2]
-        times_list = self._manifold_result[3]
+        states_list = result[2]
+        times_list = result[3]
         return [Trajectory(times, states) for times, states in zip(times_list, states_list)]
 
     def compute_stm(
@@ -231,7 +239,7 @@ class _ManifoldDynamicsService(_DynamicsServiceBase):
         Tuple[np.ndarray, np.ndarray, np.ndarray, np.ndarray]
             The stm of the manifold.
         """
-        cache_key = self.make_key(id(self.orbit), steps, self.forward)
+        cache_key = self.make_key(id(self.orbit), self._orbit_key(), steps, self.forward)
         
         def _factory() -> Tuple[np.ndarray, np.ndarray, np.ndarray, np.ndarray]:
             return _compute_stm(
@@ -260,6 +268,7 @@ class _ManifoldDynamicsService(_DynamicsServiceBase):
     ) -> Tuple[float, float, List[np.ndarray], List[np.ndarray], int, int]:
         cache_key = self.make_key(
             id(self.orbit),
+            self._orbit_key(),
             self.stable,
             self.direction,
             step,
@@ -274,7 +283,7 @@ class _ManifoldDynamicsService(_DynamicsServiceBase):
         )
 
         def _factory() -> Tuple[float, float, List[np.ndarray], List[np.ndarray], int, int]:
-            self._manifold_result = self._run_compute(
+            return self._run_compute(
                 step=step,
                 integration_fraction=integration_fraction,
                 NN=NN,
@@ -286,9 +295,12 @@ class _ManifoldDynamicsService(_DynamicsServiceBase):
                 safe_distance=safe_distance,
                 show_progress=show_progress,
             )
-            return self._manifold_result
 
-        return self.get_or_create(cache_key, _factory)
+        result = self.get_or_create(cache_key, _factory)
+        # also on a cache hit: `result` is the result of the *last* compute call
+        self._manifold_result = result
+        self._manifold_result_for = self._orbit_key()
+        return result
 
     def _run_compute(
         self,
@@ -458,7 +470,7 @@ class _ManifoldDynamicsService(_DynamicsServiceBase):
         if options is None:
             options = self.eigendecomposition_options
             
-        key = self.make_key(id(self.domain_obj), tuple(sorted(options.to_dict().items())))
+        key = self.make_key(id(self.domain_obj), self._orbit_key(), tuple(sorted(options.to_dict().items())))
         
         def _factory() -> StabilityPipeline:
             _, _, phi_T, _ = self.compute_stm(steps=2000)
